@@ -6,3 +6,8 @@ package models
 
 // RandConst makes math/rand.Float64 return 0.5 in the symbolic run (concrete back-off arithmetic).
 var RandConst bool
+
+// TickerTicks / ReadTicksSent exist natively only so that harnesses compile; the real ticker runs.
+var TickerTicks = 3
+
+func ReadTicksSent() int { return 1 << 30 }
